@@ -61,13 +61,16 @@ Fixpoint rg_ksq_q (shape : list nat) (ds : list Q) : list Q :=
 Fixpoint ins_uq (x : Q) (l : list Q) : list Q :=
   match l with
   | [] => [x]
-  | y :: r => if Qeq_bool x y then l else if Qle_bool x y then x :: l else y :: ins_uq x r
+  | y :: r => if qclose x y then l else if Qle_bool x y then x :: l else y :: ins_uq x r
   end.
+(* values within 2^-40 relative are ONE length: a scalar harmonic distance d gives per-axis distances
+   1/(n_i*(1/(n_i*d))) that may differ in the last bit, and the code merges lengths closer than
+   1e-12*kmax; genuinely different lengths of the generated grids differ by far more *)
 Definition usort_q (l : list Q) : list Q := fold_right ins_uq [] l.
 Fixpoint rank_q (v : Q) (u : list Q) : nat :=
   match u with
   | [] => 0
-  | x :: r => if Qle_bool v x then 0 else S (rank_q v r)
+  | x :: r => if Qle_bool v x || qclose v x then 0 else S (rank_q v r)
   end.
 Definition rg_tables_q_ok (shape : list nat) (ds : list Q) (ks uniq : list Q) (pindex : list nat) : bool :=
   let tab := rg_ksq_q shape ds in
